@@ -133,6 +133,8 @@ def run(tier, seed):
         for cf in set(CONFIG_FAULTS):
             for n in (1, 2, 3):
                 cases.append(make_case(rng, n, ["none"] * n, cf))
+        for _ in range(400):                  # four packages: a sample of the placements
+            cases.append(make_case(rng, 4, [rng.choice(FAULTS + ["none"] * 4) for _ in range(4)], rng.choice(CONFIG_FAULTS)))
         for _ in range(400):
             cases.append(make_case(rng, 4, [rng.choice(FAULTS) for _ in range(4)], rng.choice(CONFIG_FAULTS)))
     with ThreadPoolExecutor(max_workers=NCPU) as ex:
